@@ -147,7 +147,10 @@ pub fn run_job<R: Send + 'static>(
         let tx = tx.clone();
         std::thread::Builder::new()
             .name(format!("host{i}"))
-            .spawn(move || {
+            .spawn({
+                let ctx = ctx.clone();
+                move || {
+                obs::adopt(Some(ctx));
                 let res = std::panic::catch_unwind(std::panic::AssertUnwindSafe(|| {
                     let env = StreamContext::new(config);
                     let collect = build(&env, i);
@@ -159,7 +162,7 @@ pub fn run_job<R: Send + 'static>(
                     Err(e) => HostOutcome::Panicked(panic_msg(&e)),
                 };
                 let _ = tx.send((i, out));
-            })
+            }})
             .unwrap();
     }
     drop(tx);
@@ -235,7 +238,32 @@ pub fn run_job<R: Send + 'static>(
             Err(mpsc::RecvTimeoutError::Disconnected) => break,
         }
     }
-    obs::uninstall();
+    // The observer stays installed: workers still unwinding report to this job's context. After a
+    // panic the host threads return while worker threads may not even have started running yet:
+    // wait until the set of workers is stable and all of them ended (bounded), so that no straggler
+    // reports into the context of the next job.
+    if results.iter().any(|r| matches!(r, Some(HostOutcome::Panicked(_)))) {
+        let deadline = Instant::now() + wd.quiescence.min(Duration::from_secs(8));
+        let mut stable_since = Instant::now();
+        let mut last_started = usize::MAX;
+        loop {
+            let (started, live) = {
+                let w = ctx.workers.lock().unwrap();
+                (w.started.len(), w.live.len())
+            };
+            if started != last_started {
+                last_started = started;
+                stable_since = Instant::now();
+            }
+            if live == 0 && stable_since.elapsed() >= Duration::from_millis(120) {
+                break;
+            }
+            if Instant::now() > deadline {
+                break;
+            }
+            std::thread::sleep(Duration::from_millis(10));
+        }
+    }
     JobOutcome::Finished(
         results
             .into_iter()
